@@ -11,6 +11,7 @@ EXPLANATION = ("required-sanitiser, loop-shape and outcome-table rules: an ASCII
                "(REFUSED), forward with RD -> the selected route's server, forge-nxdomain -> blocked (NXDOMAIN) with no call to "
                "the cache/upstream on that edge, no route -> SERVFAIL")
 ASSUMPTIONS = ["not decided: invariance under all permutations (follows on paper from the loop-shape rule; not executed)"]
+EXPLANATION += '; also: every configured suffix reaches the route table (no dropping adaptor, no shrinking call in the loader)'
 EXTRA_CONFIGS = ["dns"]
 
 NORMALISERS = ("eq_ignore_ascii_case", "to_ascii_lowercase", "to_ascii_uppercase", "make_ascii_lowercase", "make_ascii_uppercase")
